@@ -1654,7 +1654,7 @@ class Sequence:
             if idx >= len(self.seq) or idx < 0:
                 warning_message("Proposed phosphosite (" + str(idx + 1) +
                                 " is outside sequence range. Skipping...")
-                pass
+                continue
 
             # grab the residue letter from the sequence
             res = self.seq[idx]
